@@ -475,6 +475,26 @@ def replay(path):
     if path.endswith(".log"):
         log(open(path).read()[-3000:])
         return 0
+    if path.endswith(".json"):
+        # a TLC-generated behaviour the code disagreed with: execute it again on the current tree
+        rec = json.load(open(path))
+        log("recorded disagreement: %s" % rec.get("why"))
+        sub = "replay-iter" if os.path.basename(path).startswith("iter-") else "replay-machine"
+        os.makedirs(WORK, exist_ok=True)
+        tmp = os.path.join(WORK, "replay_behaviour_%d.ndjson" % os.getpid())
+        with open(tmp, "w") as f:
+            f.write(json.dumps(rec["behaviour"]) + "\n")
+        rc, out = run([build_harness("debug"), sub, tmp], timeout=600)
+        os.remove(tmp)
+        m = re.search(r"REPLAYED behaviours=(\d+) mismatches=(\d+)", out)
+        if not m:
+            log("the replayer died on the current tree (rc=%s):\n%s" % (rc, out[-1500:]))
+            return 1
+        for l in out.splitlines():
+            if l.startswith("MISMATCH "):
+                log("on the current tree: %s" % json.loads(l[len("MISMATCH "):]).get("why"))
+        log("re-executed on the current tree: mismatches=%s" % m.group(2))
+        return 1 if int(m.group(2)) else 0
     events = read_events(path)
     res = validate_trace(path, "replay")
     log("recorded trace: %d events, BAD: %s" % (res["events"], res["bads"]))
